@@ -22,13 +22,14 @@ namespace BV.Props.C01Match
 open BV.Hasher BV.MatchFinder BV.Recoder BV.PrefixArith
 
 /-- what a successful search may return: a copy — positive distance within `max_backward`, length
-within `max_length`, no length-code modifier, and `len` bytes that exist in the buffer at the
+within `max_length` (and at least 2 whenever `max_length ≥ 4`, as in every call of the loop), no length-code modifier, and `len` bytes that exist in the buffer at the
 masked earlier position and equal the bytes at the masked current position — or a reference into
 the static dictionary as described by one of the looked-up slots (`DictOK`). `m` is the mask the
 code applies to the earlier position. -/
 def SoundResult (dict : Option (List DictItem)) (data : ByteArray) (m mask curIx maxLength
     maxBackward maxDistance : Nat) (o : SR) : Prop :=
   (0 < o.distance ∧ o.distance ≤ maxBackward ∧ o.len ≤ maxLength ∧ o.lenXCode = 0 ∧
+    (4 ≤ maxLength → 2 ≤ o.len) ∧
     Agree data ((curIx - o.distance) &&& m) (curIx &&& mask) o.len) ∨
   (∃ items, dict = some items ∧ DictOK items data (curIx &&& mask) maxLength maxBackward maxDistance o)
 
@@ -38,9 +39,9 @@ theorem soundResult_of_sound {dict : Option (List DictItem)} {data : ByteArray} 
     (hm : m < 2 ^ 64)
     (h : Sound dict data m (curIx &&& mask) curIx maxLength maxBackward maxDistance o) :
     SoundResult dict data m mask curIx maxLength maxBackward maxDistance o := by
-  rcases h with ⟨h1, h2, h3, h4, prev, hp, hag⟩ | h
+  rcases h with ⟨h1, h2, h3, h4, h4b, prev, hp, hag⟩ | h
   · left
-    refine ⟨h1, h2, h3, h4, ?_⟩
+    refine ⟨h1, h2, h3, h4, h4b, ?_⟩
     have hU : U64 = 2 ^ 64 := by decide
     -- `distance = cur - prev (mod 2^64)` and `distance ≤ cur` pin down `prev mod 2^64`
     have hprev : prev % 2 ^ 64 = curIx - o.distance := by
@@ -98,10 +99,10 @@ theorem match_sound_h9 (P : H9P) (lbs : Nat) (dict : Option (List DictItem))
 theorem match_without_dictionary_in_window {data : ByteArray} {m mask curIx maxLength maxBackward
     maxDistance : Nat} {o : SR}
     (h : SoundResult none data m mask curIx maxLength maxBackward maxDistance o) :
-    0 < o.distance ∧ o.distance ≤ maxBackward ∧ o.len ≤ maxLength ∧
+    0 < o.distance ∧ o.distance ≤ maxBackward ∧ o.len ≤ maxLength ∧ (4 ≤ maxLength → 2 ≤ o.len) ∧
       Agree data ((curIx - o.distance) &&& m) (curIx &&& mask) o.len := by
-  rcases h with ⟨h1, h2, h3, _, h5⟩ | ⟨items, hi, _⟩
-  · exact ⟨h1, h2, h3, h5⟩
+  rcases h with ⟨h1, h2, h3, _, h4b, h5⟩ | ⟨items, hi, _⟩
+  · exact ⟨h1, h2, h3, h4b, h5⟩
   · cases hi
 
 /-- a dictionary reference lies beyond the window, as the format prescribes (`distance >
@@ -202,8 +203,8 @@ theorem found_copy_replays (P : AdvP) (numLast lbs : Nat) (data : ByteArray) (k 
     omega
   have hs := match_sound_adv P numLast lbs none data (2 ^ k - 1) hmask cache (s.out.length + ins)
     maxLength maxBackward maxDistance out o st st' c c' hcur (by rw [hmbw]; exact Nat.min_le_left _ _) hfound
-  obtain ⟨h1, h2, _, h4⟩ := match_without_dictionary_in_window hs
-  rcases hs with ⟨_, _, _, hx, _⟩ | ⟨_, hi', _⟩
+  obtain ⟨h1, h2, _, _, h4⟩ := match_without_dictionary_in_window hs
+  rcases hs with ⟨_, _, _, hx, _, _⟩ | ⟨_, hi', _⟩
   · rw [and_ringmask, and_ringmask] at h4
     have hdle : o.distance ≤ s.out.length + ins := by rw [hmbw] at h2; exact Nat.le_trans h2 (Nat.min_le_left _ _)
     have hm := BV.MatchFinder.ring_match_is_text_match hv hdle hlo hhi h4
